@@ -43,6 +43,11 @@ ActionClauses(pre, r, post) ==
         /\ ~(AddsPreserve(pre, post) /\ (r.op.name = "add_node_to_edge" \/ AddsPreserveMembers(pre, post)))
      THEN <<"C04:AddsPreserve">> ELSE <<>>)
   \o (IF pre.frozen /\ (Struct(post) # Struct(pre) \/ ~post.frozen) THEN <<"C18:FrozenImmutable">> ELSE <<>>)
+  \* a call that would change the structure of an unfrozen twin must be rejected
+  \o (IF pre.frozen /\ r.op.name \in StructuralOps /\ r.res # "liberr"
+         /\ ~(\E o \in Unfrozen([pre EXCEPT !.frozen = FALSE], r.op, post.nodes) : o.res = r.res /\ Struct(o.st) = Struct(pre))
+       THEN <<"C18:NotRejected">> ELSE <<>>)
+  \o (IF post.frozen # (pre.frozen \/ (r.op.name = "freeze" /\ r.res = "ok")) THEN <<"C18:is_frozen">> ELSE <<>>)
 
 Verdict(r) ==
   IF r.preanom # <<>> THEN <<"tainted">> ELSE
